@@ -92,14 +92,40 @@ func runBSP(sc *Scenario, res *Result) {
 	if v, ok := sc.IntOpts["export"]; ok {
 		opts = append(opts, sdktrace.WithExportTimeout(time.Duration(v)))
 	}
-	opts = append(opts, sdktrace.WithBlocking())
-	p := sdktrace.NewBatchSpanProcessor(exp, opts...)
+	if sc.Via != "nonblocking" {
+		opts = append(opts, sdktrace.WithBlocking())
+	}
+	ctx, cancel := context.WithTimeout(ctxBg, 20*time.Second)
+	defer cancel()
+	if sc.Via == "provider" {
+		// the same constructor reached through the provider option WithBatcher, driven by real spans
+		tp := sdktrace.NewTracerProvider(sdktrace.WithBatcher(exp, opts...), sdktrace.WithSampler(sdktrace.AlwaysSample()))
+		tr := tp.Tracer("c20")
+		for i := 0; i < sc.N; i++ {
+			_, sp := tr.Start(ctxBg, "s")
+			sp.End()
+		}
+		if err := tp.ForceFlush(ctx); err != nil {
+			res.ExpErr = "forceflush: " + err.Error()
+		}
+		exp.mu.Lock()
+		res.MaxBatch, res.Total = batchStats(exp.batches)
+		exp.mu.Unlock()
+		if err := tp.Shutdown(ctx); err != nil {
+			res.ExpErr += " shutdown: " + err.Error()
+		}
+		tp.Shutdown(ctx) // a second Shutdown must stay harmless
+		return
+	}
+	var e sdktrace.SpanExporter = exp
+	if sc.Via == "nilexporter" {
+		e = nil
+	}
+	p := sdktrace.NewBatchSpanProcessor(e, opts...)
 	res.BSP = bspConfigOf(p)
 	for i := 0; i < sc.N; i++ {
 		p.OnEnd(sampledStub(i))
 	}
-	ctx, cancel := context.WithTimeout(ctxBg, 20*time.Second)
-	defer cancel()
 	if err := p.ForceFlush(ctx); err != nil {
 		res.ExpErr = "forceflush: " + err.Error()
 	}
@@ -112,6 +138,7 @@ func runBSP(sc *Scenario, res *Result) {
 	// after shutdown: further use must stay harmless
 	p.OnEnd(sampledStub(0))
 	p.ForceFlush(ctx)
+	p.Shutdown(ctx)
 }
 
 // ---- batch log record processor ----
@@ -148,13 +175,27 @@ func runBLRP(sc *Scenario, res *Result) {
 	if v, ok := sc.IntOpts["buffer"]; ok {
 		opts = append(opts, sdklog.WithExportBufferSize(int(v)))
 	}
-	p := sdklog.NewBatchProcessor(exp, opts...)
+	var e sdklog.Exporter = exp
+	if sc.Via == "nilexporter" {
+		e = nil
+	}
+	p := sdklog.NewBatchProcessor(e, opts...)
 	ctx, cancel := context.WithTimeout(ctxBg, 20*time.Second)
 	defer cancel()
-	for i := 0; i < sc.N; i++ {
-		var r sdklog.Record
-		r.SetBody(otellog.IntValue(i))
-		p.OnEmit(ctx, &r)
+	if sc.Via == "provider" {
+		// records emitted through a LoggerProvider / Logger instead of OnEmit
+		lg := sdklog.NewLoggerProvider(sdklog.WithProcessor(p)).Logger("c20")
+		for i := 0; i < sc.N; i++ {
+			var r otellog.Record
+			r.SetBody(otellog.IntValue(i))
+			lg.Emit(ctx, r)
+		}
+	} else {
+		for i := 0; i < sc.N; i++ {
+			var r sdklog.Record
+			r.SetBody(otellog.IntValue(i))
+			p.OnEmit(ctx, &r)
+		}
 	}
 	if sc.Probe {
 		// was an export triggered by the queue length alone? (it is asynchronous: wait a while)
@@ -180,6 +221,7 @@ func runBLRP(sc *Scenario, res *Result) {
 	var r sdklog.Record
 	p.OnEmit(ctx, &r)
 	p.ForceFlush(ctx)
+	p.Shutdown(ctx)
 }
 
 // ---- span limits ----
@@ -219,6 +261,9 @@ func toLimits(l []int64) sdktrace.SpanLimits {
 }
 
 func runLimits(sc *Scenario, res *Result) {
+	el := sdktrace.NewSpanLimits()
+	res.EnvLimits = []int64{int64(el.AttributeValueLengthLimit), int64(el.AttributeCountLimit), int64(el.EventCountLimit),
+		int64(el.LinkCountLimit), int64(el.AttributePerEventCountLimit), int64(el.AttributePerLinkCountLimit)}
 	rec := &spanRecorder{}
 	opts := []sdktrace.TracerProviderOption{sdktrace.WithSpanProcessor(rec), sdktrace.WithSampler(sdktrace.AlwaysSample())}
 	for _, lo := range sc.LimitsOpts {
@@ -369,7 +414,7 @@ func runSampler(sc *Scenario, res *Result) {
 	}
 	tp := sdktrace.NewTracerProvider(opts...)
 	tr := tp.Tracer("c20")
-	for parent := 0; parent < 3; parent++ {
+	for parent := 0; parent < 5; parent++ { // none, remote sampled, remote unsampled, local sampled, local unsampled
 		for k := 0; k < samplerProbes; k++ {
 			x := probeX(k)
 			ctx := ctxBg
@@ -381,11 +426,11 @@ func runSampler(sc *Scenario, res *Result) {
 				var tid trace.TraceID
 				tid[0] = 1
 				binary.BigEndian.PutUint64(tid[8:], x<<1)
-				cfg := trace.SpanContextConfig{TraceID: tid, SpanID: trace.SpanID{1}, Remote: true}
-				if parent == 1 {
+				cfg := trace.SpanContextConfig{TraceID: tid, SpanID: trace.SpanID{1}, Remote: parent <= 2}
+				if parent == 1 || parent == 3 {
 					cfg.TraceFlags = trace.FlagsSampled
 				}
-				ctx = trace.ContextWithRemoteSpanContext(ctxBg, trace.NewSpanContext(cfg))
+				ctx = trace.ContextWithSpanContext(ctxBg, trace.NewSpanContext(cfg))
 			}
 			_, sp := tr.Start(ctx, "s")
 			res.Decisions = append(res.Decisions, sp.SpanContext().IsSampled())
